@@ -124,10 +124,9 @@ def case(ctx, rnd, i):
         b = min(n, a + rnd.choice([0, 1, 2, 3, 5, 8, 13, n]))
         if marky and rnd.random() < 0.4:
             a, b = rnd.randint(0, min(3, n)), n
-        if has_box and op in ("add_mark", "set_block_type"):
-            # inline nodes with content: upstream's add_mark / set_block_type treat them in ways the
-            # simple token law does not describe; of the range operations only the removal clause is
-            # judged on such documents (node-level operations are judged as everywhere)
+        if has_box and op == "set_block_type":
+            # inline nodes with content: upstream's set_block_type treats them in ways the simple token
+            # law does not describe (add_mark is judged on text and leaves only, see below)
             op = "remove_mark"
         tr = Transform(d)
         ctx.count("ops")
@@ -304,11 +303,23 @@ def case(ctx, rnd, i):
             if [strip_marks(t) for t in new] != [strip_marks(t) for t in (exp if op != "set_node_attribute" else tk)] and op != "set_node_attribute":
                 ctx.violation("structure-changed", "%s changed text or structure: %s" % (op, str(tr.doc)[:300]), det, mech)
                 continue
+            if has_box and op == "add_mark":
+                # the mark on the inline container node itself depends on how much of it the range
+                # covers (upstream cuts it); judged: text and leaves, by their direct parent
+                unbox = lambda t: (t[0], t[1], t[2], ()) if t[0] == "O" and rs.nodes[t[1]].inline else t  # noqa: E731
+                new, exp = [unbox(t) for t in new], [unbox(t) for t in exp]
+                ctx.count("add_mark_on_inline_container_docs")
             if new != exp:
                 k = next((j for j, (x, y) in enumerate(zip(new, exp)) if x != y), min(len(new), len(exp)))
                 inside = a <= k < b if op in ("add_mark", "remove_mark") else None
+                extra = {}
+                if has_box and op == "add_mark" and k < len(new) and k < len(exp) and k < len(par):
+                    lost = set(marks_of(exp[k])) - set(marks_of(new[k]))
+                    gained = set(marks_of(new[k])) - set(marks_of(exp[k]))
+                    extra = {"token_directly_inside_inline_container": bool(rs.nodes[par[k]].inline),
+                             "only_lost_marks_that_the_added_mark_excludes": bool(lost) and not gained and all(rs.excludes(mk[0], x[0]) for x in lost)}
                 ctx.violation("marks-effect", "%s: token %d is %r, documented effect gives %r (old %r)" % (op, k, new[k] if k < len(new) else None, exp[k] if k < len(exp) else None, tk[k] if k < len(tk) else None),
-                              det, {**mech, "inside_range": inside, "old_marks": len(marks_of(tk[k])) if k < len(tk) else None})
+                              det, {**mech, "inside_range": inside, "old_marks": len(marks_of(tk[k])) if k < len(tk) else None, **extra})
                 continue
             ctx.cover([sid, op, shape, min(b - a, 3) if op in ("add_mark", "remove_mark") else None], nontrivial=not (op in ("add_mark", "remove_mark") and a == b))
             continue
